@@ -6,7 +6,7 @@
 set -u
 ROOT="$(cd "$(dirname "${BASH_SOURCE[0]}")/.." && pwd)"
 N="${1:-32}"
-export VERIF_ROOT="$ROOT" TZ=UTC0
+export VERIF_ROOT="$ROOT" TZ=NPT-5:45
 T="$ROOT/sim/target/determinism"; mkdir -p "$T"
 norm() { python3 - "$1" <<'PY'
 import json,sys
